@@ -35,7 +35,13 @@ func (c *Case) Materialize(dir string) error {
 		nt.Bind(p, cc)
 	}
 	cz := &Concretizer{Names: nt, Files: &FileTable{Paths: c.Files}, RefStyle: c.RefStyle}
-	for id, doc := range c.Bundle.Docs {
+	ids := make([]string, 0, len(c.Bundle.Docs))
+	for id := range c.Bundle.Docs {
+		ids = append(ids, id)
+	}
+	sort.Strings(ids)
+	for _, id := range ids {
+		doc := c.Bundle.Docs[id]
 		v := cz.Concretize(doc, id)
 		b, err := json.MarshalIndent(v, "", " ")
 		if err != nil {
